@@ -285,6 +285,8 @@ def widths_stage(prop, tier, name):
         if r.returncode != 0:
             raise ToolError("tvh widths failed: %s" % r.stdout[-300:])
         for row in json.load(open(outp)):
+            if "fact" in row:
+                continue
             n += 1
             w = want[row["kind"]]
             if prop == "C12" and row["kind"] != "ArcUnion":
